@@ -256,3 +256,43 @@ func TestNeverPanics(t *testing.T) {
 		}()
 	}
 }
+
+// TestElaborateRefusesBrokenModules: a module with parse errors or skipped unsupported items is
+// not simulated; other modules of the same file set are unaffected.
+func TestElaborateRefusesBrokenModules(t *testing.T) {
+	src := `module good(input a, output y); assign y = ~a; endmodule
+module broken(input a, output y); assign y = ~ ; endmodule
+module gates(input a, output y); not g(y, a); endmodule
+module withtask(input a, output y); task unused; begin end endtask assign y = a; endmodule
+module usesbroken(input a, output y); broken b(a, y); endmodule`
+	d, _ := ParseFiles(map[string]string{"x.v": src})
+	want := map[string]string{"good": "", "broken": ClassSyntax, "gates": ClassUnsupported, "withtask": "", "usesbroken": ClassSyntax}
+	for m, cls := range want {
+		_, err := d.Elaborate(m, nil)
+		switch {
+		case cls == "" && err != nil:
+			t.Errorf("%s: unexpected error %v", m, err)
+		case cls != "" && err == nil:
+			t.Errorf("%s: elaboration must fail with class %s", m, cls)
+		case cls != "":
+			if de, ok := err.(*DiagError); !ok || de.Class() != cls {
+				t.Errorf("%s: want class %s, got %v", m, cls, err)
+			}
+		}
+	}
+	// unsupported constructs that are reached at run time
+	for _, c := range []struct{ src, cls string }{
+		{"module t(input clk); reg a; task tk; begin end endtask always @(posedge clk) tk; endmodule", ClassUnsupported},
+		{"module t(input clk); reg a; always @(posedge clk) begin @(posedge clk); a <= 1; end endmodule", ClassUnsupported},
+		{"module t(inout a); endmodule", ClassUnsupported},
+		{"module t; real r; wire [3:0] w = 1.5; endmodule", ClassUnsupported},
+		{"module t(input a); sub #(1) u [3:0] (a); endmodule\nmodule sub(input a); endmodule", ClassUnsupported},
+		{"module t(input a); t u(a); endmodule", ClassUnsupported},
+	} {
+		d, _ := ParseFiles(map[string]string{"x.v": c.src})
+		_, err := d.Elaborate("t", nil)
+		if de, ok := err.(*DiagError); !ok || de.Class() != c.cls {
+			t.Errorf("%q: want %s error, got %v", c.src, c.cls, err)
+		}
+	}
+}
